@@ -23,6 +23,9 @@ def config(draw, shard=0, nshards=1, max_tracks=4, small_vocab=True):
     so that none is starved."""
     combo = draw(st.one_of(st.just(shard % 16), st.just((shard + nshards) % 16), st.integers(0, 15)))
     cfg = {"num_tracks": draw(st.integers(1, max_tracks))}
+    # resolution the tokeniser computes bar capacities with (None = library default 24); pieces are laid out on
+    # bars of 4*ppqn*num/den ticks, so only multiples of 24 keep every capacity a multiple of the rest unit
+    cfg["ppqn"] = draw(st.sampled_from([None, None, None, None, None, 24, 48, 96]))
     cfg.update(flags_from_index(combo))
     cfg["flag_simplify_time_signature"] = draw(st.booleans())
     cfg["velocity_bins"] = draw(st.one_of(st.integers(1, 16), st.sampled_from(SPECIAL_BINS), st.integers(1, 127)))
@@ -53,7 +56,7 @@ def config(draw, shard=0, nshards=1, max_tracks=4, small_vocab=True):
 def make_tokeniser(cfg):
     kw = {k: cfg[k] for k in FLAG_NAMES}
     kw["flag_simplify_time_signature"] = cfg.get("flag_simplify_time_signature", True)
-    return Tokeniser(num_tracks=cfg["num_tracks"], pitch_range=tuple(cfg["pitch_range"]),
+    return Tokeniser(ppqn=cfg.get("ppqn"), num_tracks=cfg["num_tracks"], pitch_range=tuple(cfg["pitch_range"]),
                      step_sizes=list(cfg["step_sizes"]) if cfg["step_sizes"] is not None else None,
                      note_values=list(cfg["note_values"]) if cfg["note_values"] is not None else None,
                      velocity_bins=cfg["velocity_bins"], **kw)
@@ -68,7 +71,7 @@ def step_sizes_of(cfg):
 
 
 @st.composite
-def bar_plan(draw, max_bars=6, allow_default_first=True, min_bars=1):
+def bar_plan(draw, max_bars=6, allow_default_first=True, min_bars=1, ppqn=24):
     """list of bars [(start, length, (num, den))] and the signature events [["ts", tick, num, den]]"""
     nbars = draw(st.integers(min_bars, max_bars))
     explicit = draw(st.booleans()) or not allow_default_first
@@ -81,7 +84,7 @@ def bar_plan(draw, max_bars=6, allow_default_first=True, min_bars=1):
             cur = draw(st.one_of(st.sampled_from(SIGNATURES), st.sampled_from([(2, 8), (3, 8), (16, 8), (4, 4)])).filter(
                 lambda s, c=cur: s != c))
             events.append(["ts", t, cur[0], cur[1]])
-        length = 96 * cur[0] // cur[1]
+        length = 4 * ppqn * cur[0] // cur[1]
         bars.append([t, length, list(cur)])
         t += length
     return bars, events
@@ -96,7 +99,7 @@ def piece(draw, cfg, max_bars=6, max_notes=10, allow_crossing=True, noise=True, 
     values = note_values_of(cfg)
     lo, hi = cfg["pitch_range"]
     nt = cfg["num_tracks"]
-    bars, ts_events = draw(bar_plan(max_bars=max_bars, min_bars=min_bars))
+    bars, ts_events = draw(bar_plan(max_bars=max_bars, min_bars=min_bars, ppqn=cfg.get("ppqn") or 24))
     total = bars[-1][0] + bars[-1][1]
     meta_track = draw(st.integers(0, nt - 1))
     pad_mode = draw(st.sampled_from(["none", "grid_tick", "full", "mixed"]))
